@@ -69,7 +69,18 @@ impl Synchronizer {
                                 let message = ConsensusMessage::SyncRequest(parent, name);
                                 let message = bincode::serialize(&message)
                                     .expect("Failed to serialize sync request");
-                                network.send(address, Bytes::from(message)).await;
+                                network.send(address, Bytes::from(message.clone())).await;
+                                if author == name {
+                                    // We authored this block ourselves (on top of a certificate for a
+                                    // block we never received): asking ourselves cannot succeed and
+                                    // nobody in particular holds the parent for us. Ask everybody.
+                                    let addresses = committee
+                                        .broadcast_addresses(&name)
+                                        .into_iter()
+                                        .map(|(_, x)| x)
+                                        .collect();
+                                    network.broadcast(addresses, Bytes::from(message)).await;
+                                }
                             }
                         }
                     },
